@@ -854,4 +854,124 @@ theorem refines_exact (macFn : Tsig → List UInt8 → List UInt8) (hmac : MacLe
     simp only at hh eq ean ens ear
     rw [hh, eq, ean, ens, ear]
 
+
+/-! ### sessions whose limit never exceeds the largest DNS message: no premise on the size -/
+
+theorem limit_liftW {ss : Session} {f : M Unit} (h : (f ss.w).2.limit ≤ 65535) : (liftW ss f).2.w.limit ≤ 65535 := by
+  rw [liftW_w]; exact h
+
+theorem template_limit {s s' : State} {t : Template} (buf : Bytes) (ts : Option Tsig) (hI : I s)
+    (ht : intoTemplate s = .ok t) (h' : tryFromTemplateImpl buf t ts = .ok s') (hl : s.limit ≤ 65535) :
+    s'.limit ≤ 65535 := by
+  have hi := hI.inv
+  have h1 := hi.hdr; have h2 := hi.cur_av; have h3 := hi.av_lim; have h4 := hi.lim_size
+  unfold intoTemplate at ht
+  rw [if_neg (by omega), if_neg (by omega)] at ht
+  cases ht
+  unfold tryFromTemplateImpl at h'
+  simp only at h'
+  split at h'
+  · cases h'
+  · split at h'
+    · cases h'
+    · cases h'
+      show min s.limit buf.size ≤ 65535
+      omega
+
+theorem retemplate_limit {ss : Session} (hI : I ss.w) (n : Nat) (fill : UInt8)
+    (mk : Bytes → Template → Out WriterErr State) (hmk : MkOK mk) (hl : ss.w.limit ≤ 65535) :
+    (retemplate ss n fill mk).2.w.limit ≤ 65535 := by
+  obtain ⟨t, ht⟩ := intoTemplate_ok hI.inv
+  unfold retemplate
+  rw [ht]
+  simp only []
+  obtain ⟨sf, hsf⟩ := tryFromTemplate_fallback_ok fill hI.inv ht
+  have hlf : sf.limit ≤ 65535 := template_limit _ t.tsig hI ht hsf hl
+  cases hm : mk (Array.replicate n fill) t with
+  | ok s' =>
+    simp only []
+    obtain ⟨ts, h1, _⟩ := hmk.1 _ _ _ hm
+    exact template_limit _ ts hI ht h1 hl
+  | err e => simp only []; rw [hsf]; exact hlf
+  | panic => simp only []; rw [hsf]; exact hlf
+
+theorem step_limit (ss : Session) (op : Op) (hI : I ss.w) (hop : OpOK ss op) (hl : ss.w.limit ≤ 65535)
+    (hv : ∀ v, op = .setLimit v → v ≤ 65535) : (step ss op).2.w.limit ≤ 65535 := by
+  cases op with
+  | setId v => exact limit_liftW (call_limit (.setId v) ss.w trivial hl)
+  | setQr b => exact limit_liftW (call_limit (.setBit Gen.QR_BYTE Gen.QR_MASK b) ss.w
+      (show Gen.QR_BYTE < Gen.HEADER_SIZE by decide) hl)
+  | setAa b => exact limit_liftW (call_limit (.setBit Gen.AA_BYTE Gen.AA_MASK b) ss.w
+      (show Gen.AA_BYTE < Gen.HEADER_SIZE by decide) hl)
+  | setTc b => exact limit_liftW (call_limit (.setBit Gen.TC_BYTE Gen.TC_MASK b) ss.w
+      (show Gen.TC_BYTE < Gen.HEADER_SIZE by decide) hl)
+  | setRd b => exact limit_liftW (call_limit (.setBit Gen.RD_BYTE Gen.RD_MASK b) ss.w
+      (show Gen.RD_BYTE < Gen.HEADER_SIZE by decide) hl)
+  | setRa b => exact limit_liftW (call_limit (.setBit Gen.RA_BYTE Gen.RA_MASK b) ss.w
+      (show Gen.RA_BYTE < Gen.HEADER_SIZE by decide) hl)
+  | setOpcode v => exact limit_liftW (call_limit (.setOpcode v) ss.w trivial hl)
+  | setRcode v => exact limit_liftW (call_limit (.setRcode v) ss.w trivial hl)
+  | setExtendedRcode v => exact limit_liftW (call_limit (.setExtendedRcode v) ss.w trivial hl)
+  | setLimit v => exact limit_liftW (call_limit (.setLimit v) ss.w (hv v rfl) hl)
+  | setMode m => exact limit_liftW (f := setCompressionMode m) hl
+  | addQuestion n t c => exact limit_liftW (f := addQuestion n t c) (by rw [addQuestion_limit]; exact hl)
+  | addRr sec hn o ty cls ttl rd hvs =>
+    simp only [step]
+    rw [withHv_w]
+    exact call_limit (.addRr sec (resolveHint ss.hvs hn) o ty cls ttl rd) { ss.w with hv := hvs.map (hvGet ss.hvs) }
+      ⟨hop.1, (hintOK_iff _ _ _).mpr hop.2⟩ hl
+  | addRrset sec hn o ty cls ttl rds hvs =>
+    simp only [step]
+    rw [withHv_w]
+    exact call_limit (.addRrset sec (resolveHint ss.hvs hn) o ty cls ttl rds) { ss.w with hv := hvs.map (hvGet ss.hvs) }
+      ⟨hop.1, (hintOK_iff _ _ _).mpr hop.2⟩ hl
+  | clearRrs => exact limit_liftW (f := clearRrs) hl
+  | setEdns p => exact limit_liftW (call_limit (.setEdns p) ss.w trivial hl)
+  | setTsig m rr => exact limit_liftW (call_limit (.setTsig m rr) ss.w hop hl)
+  | updateTimeSigned t =>
+    refine limit_liftW ?_
+    unfold updateTimeSigned
+    split <;> exact hl
+  | template n fill => exact retemplate_limit hI n fill _ mkOK_tryFromTemplate hl
+  | templateSubsequent n fill mac => exact retemplate_limit hI n fill _ (mkOK_subsequent mac) hl
+  | getters => exact hl
+
+theorem run_limit (ss : Session) (ops : List Op) (hI : I ss.w) (hr : Respects ss ops) (hl : ss.w.limit ≤ 65535)
+    (hv : ∀ v, Op.setLimit v ∈ ops → v ≤ 65535) : (run ss ops).1.w.limit ≤ 65535 := by
+  induction ops generalizing ss with
+  | nil => exact hl
+  | cons op ops ih =>
+    obtain ⟨hop, hrest⟩ := hr
+    obtain ⟨hnp, hI'⟩ := step_I ss op hI hop
+    have hs' := step_limit ss op hI hop hl (fun v hx => hv v (by rw [hx]; exact List.mem_cons_self))
+    have hv' : ∀ v, Op.setLimit v ∈ ops → v ≤ 65535 := fun v hx => hv v (List.mem_cons_of_mem _ hx)
+    unfold run
+    cases hs : step ss op with
+    | mk r ss' =>
+      rw [hs] at hnp hI' hrest hs'
+      cases r with
+      | panic => exact absurd rfl hnp
+      | ok u =>
+        simp only []
+        have := ih ss' hI' hrest hs' hv'
+        cases hrun : run ss' ops with
+        | mk ss'' rs => rw [hrun] at this; exact this
+      | err e =>
+        simp only []
+        have := ih ss' hI' hrest hs' hv'
+        cases hrun : run ss' ops with
+        | mk ss'' rs => rw [hrun] at this; exact this
+
+/-- the finished message of a session whose limit was never above 65535 has at most 65535 octets -/
+theorem session_size_le (macFn : Tsig → List UInt8 → List UInt8) (buf : Bytes) (limit : Nat) (s0 : State)
+    (hnew : Writer.new buf limit = .ok s0) (hlim : limit ≤ 65535) (mode : CMode) (ops : List Op)
+    (hr : Respects { w := { s0 with mode := mode } } ops) (hv : ∀ v, Op.setLimit v ∈ ops → v ≤ 65535)
+    (m : Bytes) (mac : Option (List UInt8))
+    (hf : finish (run { w := { s0 with mode := mode } } ops).1.w macFn = .ok (m, mac)) : m.size ≤ 65535 := by
+  have hI0 : I { s0 with mode := mode } := (safe_setMode mode s0 (new_i buf limit s0 hnew)).2
+  have hI := (run_I { w := { s0 with mode := mode } } ops hI0 hr).2
+  have hl := run_limit { w := { s0 with mode := mode } } ops hI0 hr (new_limit buf limit s0 hnew hlim) hv
+  have := finish_size_le_limit macFn _ hI.inv m mac hf
+  omega
+
 end QV.Writer
